@@ -511,6 +511,13 @@ def sorted_sites() -> tuple[list[tuple[str, bool]], bool]:
     f = find_func(b, "sorted_components")
     out.append(("build.sorted_components: sorted(ready, key=-min order)",
                 any(is_sorted_call(n) and ast.unparse(n.args[0]) == "ready" and "-min(" in ast.unparse(n) for n in ast.walk(f))))
+    # replaying cached errors of a fresh SCC: set-iteration order may be used only when at most ONE module has errors
+    f = find_func(b, "find_stale_sccs")
+    ifs = [n for n in ast.walk(f) if isinstance(n, ast.If) and "len(mods_with_errors)" in ast.unparse(n.test)]
+    out.append(("build.find_stale_sccs: unordered fast path only if len(mods_with_errors) <= 1, else order_ascc_ex",
+                len(ifs) == 1 and ast.unparse(ifs[0].test) == "len(mods_with_errors) <= 1"
+                and "order_ascc_ex" in ast.unparse(ifs[0].orelse[0] if ifs[0].orelse else ast.Pass())
+                and any("order_ascc_ex" in ast.unparse(x) for x in ifs[0].orelse)))
     f = find_func(nd, "SymbolTable.write")
     out.append(("nodes.SymbolTable.write: for key in sorted(self)",
                 any(is_sorted_call(i) and ast.unparse(i.args[0]) == "self" for i in for_iters(f))))
